@@ -604,12 +604,24 @@ class Ovld:
         self._update()
 
     def _update(self):
-        if self._compiled:
-            self.compile()
+        # Linked children dispatch over these methods too: they are rebuilt
+        # even if this build fails, so that they do not keep serving the
+        # previous set of methods
+        failure = None
+        try:
+            if self._compiled:
+                self.compile()
+        except Exception as exc:
+            failure = exc
         for child in self.children:
-            child._update()
+            try:
+                child._update()
+            except Exception as exc:
+                failure = failure or exc
         if hasattr(self, "dispatch"):
             self.dispatch.__doc__ = self.mkdoc()
+        if failure is not None:
+            raise failure
 
     def copy(self, mixins=[], linkback=False):
         """Create a copy of this Ovld.
